@@ -224,16 +224,18 @@ def call_configs():
         out += [('superpose', 'none', ex), ('align', 'none', ex)]
     return out
 
-def make_call(routine, zmode, export, indir, zname=None):
+def make_call(routine, zmode, export, indir, zname=None, ext='.pdb'):
     zext = '.lzone' if routine == 'lrmsd_fast' else '.izone'
     zone = None if zmode == 'none' else (zname or ('cache/zone' + zext))
     return {'routine': routine, 'zone': zone, 'export': export,
-            'decoy': indir + 'decoy.pdb', 'ref': indir + 'ref.pdb', 'zmode': zmode}
+            'decoy': indir + 'decoy' + ext, 'ref': indir + 'ref' + ext, 'zmode': zmode}
 
 # ----------------------------------------------------------------------------------------
 def footprint_case(ctx, rep, M, rng, base, idx, routine, zmode, export, seeded, texts, indir):
     ref_t, dec_t, _ = texts
-    c = make_call(routine, zmode, export, indir)
+    # input files are not always called *.pdb: the exported name is derived from the input name, and must never BE it
+    ext = rng.choice(['.pdb', '.ent', '.PDB', '']) if (routine in ('align', 'superpose') and export) else '.pdb'
+    c = make_call(routine, zmode, export, indir, ext=ext)
     files0 = {c['ref']: ref_t, c['decoy']: dec_t}
     dirs = ['cache'] + ([export] if isinstance(export, str) else [])
     case = {'part': 'footprint', 'call': c, 'seeded': seeded, 'inputs': {'ref': ref_t, 'decoy': dec_t}, 'indir': indir}
